@@ -114,6 +114,15 @@ func c01Arg(g *strings.Builder, idx int, name string, t types.Type, pkg *types.P
 	return ag, false
 }
 
+// renameParams returns the tuple with parameters named a0, a1, ...
+func renameParams(t *types.Tuple) *types.Tuple {
+	var vs []*types.Var
+	for i := 0; i < t.Len(); i++ {
+		vs = append(vs, types.NewParam(0, nil, fmt.Sprintf("a%d", i), t.At(i).Type()))
+	}
+	return types.NewTuple(vs...)
+}
+
 func c01ResultComparable(t types.Type) bool {
 	switch u := t.Underlying().(type) {
 	case *types.Basic:
@@ -163,7 +172,12 @@ func c01Harness(name string, sig *types.Signature, variants []string, pkg *types
 		fmt.Fprintf(&sb, "\t\tx%d %s\n", i, types.TypeString(sig.Params().At(i).Type(), qual))
 	}
 	sb.WriteString("\t\tpanicked bool\n\t\ttrace []int\n\t}\n")
-	fmt.Fprintf(&sb, "\trun := func(f func%s) (r res) {\n", strings.TrimPrefix(types.TypeString(sig, qual), "func"))
+	// the rendered variants take the variadic parameter as a slice
+	plainSig := sig
+	if sig.Variadic() {
+		plainSig = types.NewSignatureType(nil, nil, nil, sig.Params(), sig.Results(), false)
+	}
+	fmt.Fprintf(&sb, "\trun := func(f func%s) (r res) {\n", strings.TrimPrefix(types.TypeString(plainSig, qual), "func"))
 	sb.WriteString("\t\tTrace = nil\n")
 	var args []string
 	for i, ag := range ags {
@@ -176,16 +190,22 @@ func c01Harness(name string, sig *types.Signature, variants []string, pkg *types
 		lhs = append(lhs, fmt.Sprintf("r.r%d", i))
 	}
 	call := fmt.Sprintf("f(%s)", strings.Join(args, ", "))
-	if sig.Variadic() {
-		call = fmt.Sprintf("f(%s...)", strings.Join(args, ", "))
-	}
 	if nres > 0 {
 		fmt.Fprintf(&sb, "\t\t%s = %s\n", strings.Join(lhs, ", "), call)
 	} else {
 		fmt.Fprintf(&sb, "\t\t%s\n", call)
 	}
 	sb.WriteString("\t\treturn\n\t}\n")
-	fmt.Fprintf(&sb, "\tref := run(%s)\n", name)
+	if sig.Variadic() {
+		var ps []string
+		for i := 0; i < sig.Params().Len(); i++ {
+			ps = append(ps, fmt.Sprintf("a%d", i))
+		}
+		fmt.Fprintf(&sb, "\tref := run(func%s { %s%s(%s...) })\n", strings.TrimPrefix(types.TypeString(types.NewSignatureType(nil, nil, nil, renameParams(sig.Params()), sig.Results(), false), qual), "func"),
+			map[bool]string{true: "return ", false: ""}[nres > 0], name, strings.Join(ps, ", "))
+	} else {
+		fmt.Fprintf(&sb, "\tref := run(%s)\n", name)
+	}
 	for _, vn := range variants {
 		mode := vn[strings.LastIndex(vn, "__")+2:]
 		fmt.Fprintf(&sb, "\t{\n\t\tgot := run(%s)\n", vn)
@@ -278,7 +298,8 @@ func c01Prepare(tier string, chunk int) (files map[string]string, entries []stri
 	var eligible []*c01Func
 	for _, n := range order {
 		cf := funcs[n]
-		if notSubject[n] {
+		if notSubject[n] || strings.HasPrefix(n, "GGP") {
+			// GGP: goto-built shapes without a fuel counter (may not terminate); C02/C14 only
 			continue
 		}
 		if cf.Skip == "" {
